@@ -322,7 +322,7 @@ PROPS = {
         "explanation": "C03.* theorems; sdd stream: model == implementation (canonical form), implementation == spec truth tables.",
     },
     "C14": {
-        "modules": ["RsddModel.Props.C14", "RsddModel.Props.TieOrders", "RsddModel.Props.TieVTree"],
+        "modules": ["RsddModel.Props.C14", "RsddModel.Props.TieOrders", "RsddModel.Props.TieVTree", "RsddModel.Props.TieCnfOrd"],
         "streams": [ORD_STREAM],
         "rule": "CNFs with unit/duplicate/tautological/empty clauses and unused indices -> linear, min-fill, FORCE orders and two run-time extensions; "
                 "explicit permutations through VarOrder::new; dtrees for random elimination orders with the derived vtree; vtrees from right_linear / "
